@@ -485,6 +485,17 @@ def conventional(rng, name, feat=None):
         svcs[0].rpc("Probe", P + ".ProbeRequest", P + ".Aux", http={"get": f"/{uver}/{{name=probes/*}}"}, sigs=["name"])
         svcs[1].rpc("Probe", P + ".AdminProbeRequest", P + ".Aux", http={"get": f"/{uver}/{{name=adminProbes/*}}"}, sigs=["name"])
         tags.add("same-rpc-name-two-services")
+    if reserved and rng.random() < 0.5:
+        # a method signature naming fields that are Python keywords / reserved words
+        q = f.message("MoveThingRequest")
+        q.field("name", "string", required=True)
+        q.field("from", "string")
+        q.field("to", "string")
+        q.field("class", "int32")
+        q.field("type", "string")
+        rng.choice(svcs).rpc("MoveThing", P + ".MoveThingRequest", P + ".Aux", http={"post": f"/{uver}/{{name=movables/*}}:move"}, body="*",
+                             sigs=[rng.choice(["name,from,to", "name,class", "name,from,type"])])
+        tags.add("keyword-fields-in-signature")
     if rng.random() < 0.5:
         # method signatures that flatten a map and a list (the clients apply these with update()/extend())
         q = f.message("SetLabelsRequest")
@@ -729,6 +740,13 @@ def types_zoo(rng, name, nmsgs=6):
             m.field("fwd", P + f".Zoo{min(nmsgs - 1, i + 1)}")   # forward (or self) reference
             tags.add("forward-ref")
         msgs.append(P + f".Zoo{i}")
+    # enum values are wire/JSON names, not attributes: lower-case values that happen to be reserved words of the generator stay as they are
+    lower = f.enum("LowerMode", "lower_mode_unspecified", "all", "any", "type", "next", "format")
+    lm = f.message("LowerModes")
+    lm.field("mode", lower)
+    lm.field("modes", lower, repeated=True)
+    lm.map("by_key", "string", lower)
+    tags.add("lower-case-enum-values")
     # real oneofs whose names start with an underscore (the idiom that preceded proto3 `optional`), before and between ordinary
     # oneofs and next to genuinely optional fields (whose synthetic oneofs have the same look)
     um = f.message("UnderscoreOneofs")
@@ -2060,12 +2078,22 @@ def twin_module_api(rng, name):
     its.field("unit", "string")
     its.field("count", "int32")
     its.field("weight", "double")
+    # ... and an enum of the same name with the same numbers under other names: enum-typed fields need the module alias too
+    lv = fr.enum("Level", "LEVEL_UNSPECIFIED", "LOW", "HIGH")
+    lvs = fsub.enum("Level", "LEVEL_UNSPECIFIED", "USER", "ROOT")
     f = File(f"{dirp}/{name}.proto", pkg, deps=list(STD_DEPS) + [fr.pb.name, fsub.pb.name])
     for x in (fr, fsub, f):
         api.add(x)
     ack = f.message("Ack")
     ack.field("ok", "bool")
     ack.field("note", "string")
+    if rng.random() < 0.7:
+        # both modules reached ONLY through enum-typed fields from this message
+        bk = f.message("Book")
+        bk.field("title", "string")
+        bk.field("level", lv)
+        bk.field("admin_level", lvs)
+        bk.field("admin_levels", lvs, repeated=True)
     s = f.service("Catalog", host=f"{name}.googleapis.com")
     rpcs = [("Stock", P + ".sub.Item", P + ".Ack", {}), ("Order", P + ".Item", P + ".Ack", {}), ("Lookup", P + ".Ack", P + ".sub.Item", {}),
             ("Find", P + ".Ack", P + ".Item", {}), ("Watch", P + ".Ack", P + ".sub.Item", {"ss": True}), ("Feed", P + ".sub.Item", P + ".Ack", {"cs": True})]
@@ -2073,6 +2101,9 @@ def twin_module_api(rng, name):
         rpcs.insert(0, ("Weigh", P + ".Item", P + ".sub.Item", {}))      # adjacent references as well
     for nm, i_, o_, kw in rpcs:
         s.rpc(nm, i_, o_, **kw)
+    if any(m.name == "Book" for m in f.pb.message_type):
+        s.rpc("GetBook", P + ".Ack", P + ".Book")
+        s.rpc("PutBook", P + ".Book", P + ".Ack", sigs=["title,admin_level"])
     api.options = ["transport=grpc", "autogen-snippets=false"]
     api.info.update(pkg=pkg, version=ver, ns=["vp"], name=name, host=f"{name}.googleapis.com")
     api.tags.add("twin-proto-plus-modules")
